@@ -819,7 +819,8 @@ impl Meta {
                 None => continue,
             };
             let pr = s.rt.verif_probe();
-            if !matches!(pr.state, "Running" | "Input" | "InputRunning" | "InputRedo" | "Inkey") {
+            // (RuntimeError: an error has been raised but not reported yet -- a break in that window defers it to CONT)
+            if !matches!(pr.state, "Running" | "Input" | "InputRunning" | "InputRedo" | "Inkey" | "RuntimeError") {
                 continue;
             }
             if pr.pc >= pr.direct_address {
